@@ -91,7 +91,7 @@ def run_load(ctx, k, data, kind, src, name='m.cfg'):
         crash = sanreport.classify(res)
         if crash is not None:
             ctx.count('load_outcome', 'crash')
-            key = 'crash:' + (';'.join(crash.frames[:2]) if crash.frames else crash.kind + ':' + digest)
+            key = crash.key(digest)
             ctx.violation(key, '%s while loading a %s of %s: %s\n%s' % (
                 crash.kind + (' [' + crash.detail + ']' if crash.detail else ''), kind, src, ' <- '.join(crash.frames[:4]), crash.excerpt[:2500]),
                 files={name: data, 't.c': '@' + os.path.join(d, 't.c')}, cmd=cmd)
@@ -232,8 +232,8 @@ def run(ctx):
                 'analysed by the CLI; non-trivial = >= 3 calls were compared with the model and at least one of them '
                 'was expected to be reported (so both verdict directions were exercised)')
     cfgs = shipped_cfgs()
-    nload = ctx.n(110, 20000)
-    nsem = ctx.n(60, 5000)
+    nload = ctx.n(70, 20000)
+    nsem = ctx.n(50, 5000)
 
     def job(j):
         kind, k = j
